@@ -227,6 +227,12 @@ static int newreq_cb(struct evhttp_request *req, void *arg)
 {
 	struct evhttp_connection *c = evhttp_request_get_connection(req);
 	if (c) track_bev(evhttp_connection_get_bufferevent(c));
+	if (c && bufferevent_getfd(evhttp_connection_get_bufferevent(c)) >= 0) {
+		/* no Nagle on the server side: a small reply must not wait for the raw client's delayed ACK
+		 * (quiescence of the scripts is judged from what has arrived) */
+		int one = 1;
+		setsockopt(bufferevent_getfd(evhttp_connection_get_bufferevent(c)), IPPROTO_TCP, TCP_NODELAY, &one, sizeof(one));
+	}
 	return 0;
 }
 static void gen_cb(struct evhttp_request *req, void *arg)
@@ -291,7 +297,7 @@ static void log_statuses(FILE *f, const char *p, size_t n)
 	fputc('[', f);
 	while (i < n) {
 		/* status line */
-		size_t e = i; long cl = -1; int code = 0, nobody;
+		size_t e = i; long cl = -1; int code = 0, nobody, chunked = 0;
 		while (e < n && p[e] != '\n') e++;
 		if (e >= n) { if (!first) fputc(',', f); fputs("-1", f); first = 0; break; } /* truncated */
 		if (e - i >= 12 && !memcmp(p + i, "HTTP/", 5)) code = atoi(p + i + 9);
@@ -304,11 +310,24 @@ static void log_statuses(FILE *f, const char *p, size_t n)
 			while (e < n && p[e] != '\n') e++;
 			if (e >= n) { i = n; break; }
 			if (e - i >= 15 && !strncasecmp(p + i, "Content-Length:", 15)) cl = atol(p + i + 15);
+			if (e - i >= 26 && !strncasecmp(p + i, "Transfer-Encoding: chunked", 26)) chunked = 1;
 			if (e == i || (e == i + 1 && p[i] == '\r')) { i = e + 1; break; }
 			i = e + 1;
 		}
 		nobody = (code >= 100 && code < 200) || code == 204 || code == 304;
 		if (nobody) continue;
+		if (chunked) { /* skip the chunks */
+			for (;;) {
+				long sz = strtol(p + i, NULL, 16);
+				while (i < n && p[i] != '\n') i++;
+				if (i >= n) break;
+				i++;
+				if (sz == 0) { while (i < n && p[i] != '\n') i++; if (i < n) i++; break; }
+				i += (size_t)sz + 2;
+				if (i >= n) break;
+			}
+			continue;
+		}
 		if (cl < 0) break; /* close-delimited */
 		i += (size_t)cl;
 	}
@@ -682,6 +701,120 @@ static void client_fault_run(FILE *f, jval *sc)
 	fclose(evlog); free(ebuf); evlog = NULL;
 }
 
+/* ---- server scripts (C27 server side): several raw clients against the real evhttp.
+ * {"mode":"srvscript","max_conn":N,"steps":[["open",c],["send",c,"octets",n_complete_requests],["pclose",c],["reply",c]]}
+ * request targets are /c<c>/r<k>/<m>: m = i reply at once, k chunked reply at once, d / D the application holds the
+ * request and replies (plain / chunked) at the next ["reply",c] step.  Replies carry status 210+k (no 204).
+ * output {"ev":[["open",c,0],["send",c,n],["h",c,k],["r",c,k],["oc",c,k],["pclose",c,0],["reply",c,0],...,["st",c,[codes],closed]...]} */
+#define SC_MAX 6
+static int sc_fd[SC_MAX], sc_eof[SC_MAX]; static char *sc_buf[SC_MAX]; static size_t sc_len[SC_MAX];
+static struct evhttp_request *sc_held[SC_MAX]; static int sc_held_k[SC_MAX], sc_held_chunked[SC_MAX];
+static long sc_activity;
+static void sc_oc_cb(struct evhttp_request *req, void *arg)
+{
+	int v = (int)(intptr_t)arg;
+	ev_put("oc", v / 100, v % 100); sc_activity++;
+}
+static void sc_do_reply(struct evhttp_request *req, int c, int k, int chunked)
+{
+	struct evbuffer *b = evbuffer_new();
+	ev_put("r", c, k); sc_activity++;
+	evbuffer_add_printf(b, "c%dr%d", c, k);
+	if (chunked) {
+		evhttp_send_reply_start(req, 210 + k, "OK");
+		evhttp_send_reply_chunk(req, b);
+		evhttp_send_reply_end(req);
+	} else
+		evhttp_send_reply(req, 210 + k, "OK", b);
+	evbuffer_free(b);
+}
+static void sc_handler(struct evhttp_request *req, void *arg)
+{
+	int c = -1, k = -1; char m = 'i';
+	sscanf(evhttp_request_get_uri(req), "/c%d/r%d/%c", &c, &k, &m);
+	if (c < 0 || c >= SC_MAX || k < 0) { evhttp_send_error(req, 400, "bad test uri"); return; }
+	ev_put("h", c, k); sc_activity++;
+	evhttp_request_set_on_complete_cb(req, sc_oc_cb, (void *)(intptr_t)(c * 100 + k));
+	if (m == 'd' || m == 'D') { sc_held[c] = req; sc_held_k[c] = k; sc_held_chunked[c] = (m == 'D'); return; }
+	sc_do_reply(req, c, k, m == 'k');
+}
+static void sc_drain(void)
+{
+	int c; char buf[8192];
+	for (c = 0; c < SC_MAX; c++) {
+		ssize_t r;
+		if (sc_fd[c] < 0 || sc_eof[c]) continue;
+		while ((r = read(sc_fd[c], buf, sizeof(buf))) > 0) {
+			sc_buf[c] = realloc(sc_buf[c], sc_len[c] + r + 1);
+			memcpy(sc_buf[c] + sc_len[c], buf, r); sc_len[c] += r; sc_activity++;
+			{ int one = 1; setsockopt(sc_fd[c], IPPROTO_TCP, TCP_QUICKACK, &one, sizeof(one)); }
+		}
+		if (r == 0 || (r < 0 && errno != EAGAIN && errno != EWOULDBLOCK && errno != EINTR)) { sc_eof[c] = 1; sc_activity++; }
+	}
+}
+static void sc_settle(void)
+{
+	int quiet = 0; long last = -1; double t0 = now_s();
+	while (quiet < 12) {
+		event_base_loop(base, EVLOOP_NONBLOCK);
+		sc_drain();
+		if (sc_activity == last && event_base_get_num_events(base, EVENT_BASE_COUNT_ACTIVE) == 0) { quiet++; if (quiet > 3) usleep(300); }
+		else { quiet = 0; last = sc_activity; }
+		if (now_s() - t0 > 15.0) { hang = 1; return; }
+	}
+}
+static void server_script_run(FILE *f, jval *sc)
+{
+	jval *steps = j_get(sc, "steps");
+	char *ebuf = NULL; size_t elen = 0; size_t i; int c;
+	struct sockaddr_in sin;
+	evlog = open_memstream(&ebuf, &elen); nev = 0; hang = 0; sc_activity = 0;
+	for (c = 0; c < SC_MAX; c++) { sc_fd[c] = -1; sc_eof[c] = 0; sc_len[c] = 0; sc_held[c] = NULL; }
+	evhttp_set_gencb(http, sc_handler, NULL);
+	evhttp_set_max_connections(http, (int)j_int(sc, "max_conn", 0));
+	memset(&sin, 0, sizeof(sin)); sin.sin_family = AF_INET; sin.sin_port = htons(srv_port); sin.sin_addr.s_addr = htonl(INADDR_LOOPBACK);
+	for (i = 0; steps && i < steps->n && !hang; i++) {
+		jval *st = steps->items[i]; const char *op = st->items[0]->str; c = (int)st->items[1]->i;
+		if (c < 0 || c >= SC_MAX) continue;
+		if (!strcmp(op, "open") && sc_fd[c] < 0) {
+			int one = 1;
+			sc_fd[c] = socket(AF_INET, SOCK_STREAM, 0);
+			if (connect(sc_fd[c], (struct sockaddr *)&sin, sizeof(sin)) < 0) { perror("connect"); exit(3); }
+			setsockopt(sc_fd[c], IPPROTO_TCP, TCP_NODELAY, &one, sizeof(one)); set_nonblock(sc_fd[c]);
+			ev_put("open", c, 0);
+		} else if (!strcmp(op, "send") && sc_fd[c] >= 0) {
+			ev_put("send", c, (int)st->items[3]->i);
+			if (send(sc_fd[c], st->items[2]->str, st->items[2]->slen, MSG_NOSIGNAL) < 0) { /* peer already gone */ }
+		} else if (!strcmp(op, "pclose") && sc_fd[c] >= 0) {
+			struct linger lg = { 1, 0 };
+			ev_put("pclose", c, 0);
+			sc_drain();
+			setsockopt(sc_fd[c], SOL_SOCKET, SO_LINGER, &lg, sizeof(lg)); close(sc_fd[c]); sc_fd[c] = -2;
+		} else if (!strcmp(op, "reply")) {
+			ev_put("reply", c, 0);
+			if (sc_held[c]) { struct evhttp_request *r = sc_held[c]; sc_held[c] = NULL; sc_do_reply(r, c, sc_held_k[c], sc_held_chunked[c]); }
+		}
+		sc_settle();
+	}
+	for (c = 0; c < SC_MAX; c++) {
+		if (sc_fd[c] == -1) continue;
+			fprintf(evlog, "%s[\"st\",%d,", nev++ ? "," : "", c);
+		log_statuses(evlog, sc_buf[c] ? sc_buf[c] : "", sc_len[c]);
+		fprintf(evlog, ",%d]", sc_eof[c]);
+	}
+	/* teardown: answer what is still held, drop every client, wait for the server to free its connections */
+	for (c = 0; c < SC_MAX; c++) if (sc_held[c]) { struct evhttp_request *r = sc_held[c]; sc_held[c] = NULL; evhttp_send_reply(r, 200, "OK", NULL); }
+	for (c = 0; c < SC_MAX; c++) if (sc_fd[c] >= 0) { struct linger lg = { 1, 0 }; setsockopt(sc_fd[c], SOL_SOCKET, SO_LINGER, &lg, sizeof(lg)); close(sc_fd[c]); sc_fd[c] = -1; }
+	cfd = -1; cli_eof = 1;
+	wait_until(srv_dead);
+	evhttp_set_max_connections(http, 0);
+	evhttp_set_gencb(http, gen_cb, NULL);
+	for (c = 0; c < SC_MAX; c++) { free(sc_buf[c]); sc_buf[c] = NULL; }
+	fflush(evlog);
+	fprintf(f, "{\"ev\":[%.*s],\"hang\":%d}", (int)elen, ebuf ? ebuf : "", hang);
+	fclose(evlog); free(ebuf); evlog = NULL;
+}
+
 /* ---- scenario */
 struct obs { char *s; size_t n; int *idx; int nidx; };
 
@@ -693,6 +826,7 @@ static void run_scenario(jval *sc, FILE *out)
 	size_t i; int k;
 	hang = 0; scen_maxbuf = 0;
 	if (!strcmp(mode, "clientfault")) { client_fault_run(out, sc); fputc('\n', out); return; }
+	if (!strcmp(mode, "srvscript")) { server_script_run(out, sc); fputc('\n', out); return; }
 	if (!bytes || bytes->t != J_STR || !segs) { fprintf(out, "{\"err\":\"bad scenario\"}\n"); return; }
 	reply_spec = j_get(sc, "reply"); route_spec = j_get(sc, "route");
 	if (reply_spec && j_get(reply_spec, "dct")) {   /* C26: evhttp_set_default_content_type(value | NULL); the string is not copied */
